@@ -441,6 +441,38 @@ def mutex_fair_invariant(R, F, E, CG, state_paths, cfg):
     R.floor('C01.P.fair notify-paths[%s]' % cfg, n, 2)
 
 
+def _infeasible_everywhere(C, F, E, cfg, fn, t):
+    """an explicit panic site nobody classified: is it unreachable on every path of every function that exposes it
+    (the function itself when it is public API / a trait method / uncalled, else its callers, transitively)?"""
+    CG = C.cg(cfg)
+    seen, work, roots = set(), [fn['path'] if fn['kind'] != 'closure' else CG.root_fn(fn['path'])], set()
+    while work:
+        q = work.pop()
+        if q in seen:
+            continue
+        seen.add(q)
+        cs = [c for c, _ in CG.callers_of(q) if c != q]
+        fq = F.fn(q) or {}
+        if not cs or fq.get('reachable') or fq.get('impl_trait'):
+            roots.add(q)
+        work.extend(cs)
+    entered = False
+    for r in sorted(roots):
+        saved = set(F.alias_fns)
+        F.alias_fns.discard(r)
+        try:
+            paths = E.run(r)
+        finally:
+            F.alias_fns.update(saved)
+        for path in paths:
+            for e in path.events:
+                if e['k'] == 'enter' and e['fn'] == fn['path']:
+                    entered = True
+                if e['k'] == 'panic' and e.get('fn') == fn['path'] and e.get('ln') == t['ln']:
+                    return False
+    return entered
+
+
 def panic_sites(C, R, F, E, roles, cfg):
     """every explicit panic site is classified; unclassified => violation"""
     n = 0
@@ -493,6 +525,8 @@ def panic_sites(C, R, F, E, roles, cfg):
                 cat = 'unreachable by the refill invariant (C09.R2): with capacity > 0 no sender stays parked while the buffer is empty'
             elif p.endswith('DropBomb as std::ops::Drop>::drop'):
                 cat = 'by design: a panicking comparison aborts'
+            if cat is None and _infeasible_everywhere(C, F, E, cfg, fn, t):
+                cat = 'unreachable: no path from any function that exposes it reaches this panic (checked on every calling context)'
             if cat is None:
                 R.fail('C01.P', [p, name, msg[:40]],
                        'unclassified explicit panic site in %s (%s %s): a call through the safe API may panic on a '
